@@ -449,8 +449,14 @@ func genC10(r *Rng, idx int, tier string) *Scenario {
 	for i := 0; i < nobj; i++ {
 		keyLens[i] = encrSizes[(idx+i)%3]
 		keys[i] = r.Bytes(keyLens[i])
-		if i > 0 && r.Chance(1, 2) { // a second object holding the same key
-			keyLens[i], keys[i] = keyLens[0], keys[0]
+		if i > 0 {
+			switch r.Intn(3) {
+			case 0: // a second object holding the same key
+				keyLens[i], keys[i] = keyLens[0], keys[0]
+			case 1: // same size, another key (the caller may hand it over in the same buffer)
+				keyLens[i] = keyLens[0]
+				keys[i] = r.Bytes(keyLens[0])
+			}
 		}
 		sc.Steps = append(sc.Steps, Step{Op: "cipher_new", Cipher: i, N: keyLens[i], Key: keys[i], Repeat: r.Intn(2)})
 	}
